@@ -155,9 +155,27 @@ def _borderline(kind, ndim, L, dims):
     return ev
 
 
+# the in-place flag in the representations a truth value arrives in (numpy.bool_ is what a comparison of arrays gives)
+FLAG_FORMS = {"in:numpy.True_": np.bool_(True), "in:1": 1, "copy:numpy.False_": np.bool_(False), "copy:0": 0}
+
+
+def _representations(kind, ndim, dims, L):
+    """(event, form) pairs that spell a LEGAL step differently: the in-place flag as numpy bool / integer, the turn count
+    as an integral float or numpy integer.  Each must act exactly like the plain spelling - or be refused and leave the
+    object untouched."""
+    base = [("translate", (tuple([0.25 * L] * ndim),)), ("scale", (2.0, None))]
+    out = [(e, f) for e in base for f in FLAG_FORMS]
+    if ndim >= 2:
+        rot = ("rotate90", (dims[0], dims[1], 1, None))
+        out += [(rot, f) for f in FLAG_FORMS]
+        for kk in (1.0, np.int64(3), np.float64(2.0), np.int8(-1)):
+            out += [(("rotate90", (dims[0], dims[1], kk, None)), f) for f in ("in", "copy")]
+    return out
+
+
 def _call(obj, kind, ev, form):
     op, args = ev[0], ev[1]
-    inplace = form in ("in", "mesh-in")
+    inplace = FLAG_FORMS[form] if form in FLAG_FORMS else form in ("in", "mesh-in")
     target = obj.mesh if (kind == "field" and op in ("translate", "scale")) else obj
     if op == "translate":
         r = target.translate(np.array(args[0]) if isinstance(args[0], _ARR) else args[0], inplace=inplace)
@@ -469,6 +487,40 @@ def unit_histories(ctx):
                     if C.snap(o) != s0:
                         ctx.fail(f"{cls}/malformed-modified-object/{form}", f"{mev} changed the object although it "
                                  f"{'raised' if raised else 'returned'}", instance=inst)
+            # (probed at the start state and after every single step: the spelling of an argument does not interact
+            # with longer histories, the object's past only has to be non-trivial)
+            for rev, rform in (_representations(kind, ndim, dims, _scale_len(ndim, variant)) if len(hist) <= 1 else []):
+                plain_form = "in" if rform.startswith("in") else "copy"
+                if kind == "field" and rev[0] in ("translate", "scale"):
+                    if plain_form == "copy":
+                        continue
+                    plain_form = "mesh-in"
+                plain_ev = rev if rev[0] != "rotate90" else ("rotate90", rev[1][:2] + (int(rev[1][2]),) + rev[1][3:])
+                o1, o2 = build(hist), build(hist)
+                s0 = C.snap(o2)
+                ctx.step(2)
+                ctx.check()
+                r1x, r1 = C.raises(_call, o1, kind, plain_ev, plain_form)
+                if r1x:
+                    continue  # the plain spelling is judged as a transition
+                r2x, r2 = C.raises(_call, o2, kind, rev, rform)
+                inst = f"{kind};nd={ndim};var={variant};hist={[(e[0], e[1], e[2]) for e in hist]};ev={rev!r};form={rform}"
+                cls = f"{'Field' if kind == 'field' else 'Mesh' if kind.startswith('mesh') else 'Region'}.{rev[0]}"
+                what = "flag" if rform in FLAG_FORMS else "turn-count"
+                if r2x:
+                    if C.snap(o2) != s0:
+                        ctx.fail(f"{cls}/{what}-representation/refused-but-object-modified", f"{rev} {rform}: {type(r2).__name__}: "
+                                 f"{str(r2)[:120]}", instance=inst)
+                    continue
+                inpl = plain_form in ("in", "mesh-in")
+                if inpl and (r2 is not o2 or C.snap(o2) != C.snap(o1)):
+                    ctx.fail(f"{cls}/{what}-representation/in-place-form-differs-from-plain-spelling",
+                             f"{rev} with {rform}: returned {'the object' if r2 is o2 else 'another object'}; object equal to the "
+                             f"plain in-place result: {C.snap(o2) == C.snap(o1)}", instance=inst)
+                elif not inpl and (r2 is o2 or C.snap(o2) != s0 or isinstance(r2, tuple) or C.snap(r2) != C.snap(r1)):
+                    ctx.fail(f"{cls}/{what}-representation/copying-form-differs-from-plain-spelling",
+                             f"{rev} with {rform}: original untouched: {C.snap(o2) == s0}; returned the object itself: {r2 is o2}",
+                             instance=inst)
             if kind != "field":
                 for bev in _borderline(kind, ndim, _scale_len(ndim, variant), dims):
                     oc, oi = build(hist), build(hist)
